@@ -194,7 +194,83 @@ Section Asm.
         set (elems := map (fun v => chunk (fst v) (snd v)) vs17).
         assert (Le : length elems = 17%nat) by (unfold elems; rewrite map_length; exact L17).
         destruct elems as [|a [|b [|c r]]]; simpl in Le; try lia.
-        replace (Nat.eqb (length (a :: b :: c :: r)) 17) with true by (simpl; rewrite Le; reflexivity).
+        assert (Lr : length r = 14%nat) by lia.
+        replace (Nat.eqb (length (a :: b :: c :: r)) 17) with true by (cbn [length]; rewrite Lr; reflexivity).
         rewrite Eck. unfold merge_list_values. cbn [concat]. rewrite app_nil_r. reflexivity.
   Qed.
+
+  (* the mounted node is canonical and holds the partition's content under nibble p, nothing else *)
+  Lemma mount_can p t : p < 16 -> can t -> can (mount p t).
+  Proof.
+    intros Hp Hc. destruct (can_cases _ Hc) as [(k & v & -> & Hk)|[(k & cs & -> & Hk & Kne & Hcf)|(cs & ->)]]; cbn [mount].
+    - apply can_leaf. apply valid_key_cons. right. split; assumption.
+    - apply can_ext; [constructor; assumption|discriminate|exact Hcf].
+    - apply can_ext; [constructor; [exact Hp|constructor]|discriminate|exact Hc].
+  Qed.
+
+  Lemma mount_lk p t q r : can t ->
+    lk (mount p t) (q :: r) = if N.eqb p q then lk t r else None.
+  Proof.
+    intros Hc. destruct (can_cases _ Hc) as [(k & v & -> & Hk)|[(k & cs & -> & Hk & Kne & Hcf)|(cs & ->)]]; cbn [mount];
+      rewrite !lk_short; cbn [strip]; destruct (N.eqb p q); reflexivity.
+  Qed.
+
+  Lemma mount_lk_nil p t : can t -> lk (mount p t) [] = None.
+  Proof.
+    intros Hc. destruct (can_cases _ Hc) as [(k & v & -> & Hk)|[(k & cs & -> & Hk & Kne & Hcf)|(cs & ->)]]; reflexivity.
+  Qed.
+
+  (* the blobs handed to assembleRoot when only partition p is populated *)
+  Definition single_blobs (p : nat) (e : list N) : list (option (list N)) :=
+    repeat None p ++ Some e :: repeat None (15 - p).
+
+  Lemma single_blobs_populated p e : (p < 16)%nat ->
+    length (filter (fun b : option (list N) => match b with Some _ => true | None => false end) (single_blobs p e)) = 1%nat.
+  Proof.
+    intros _. unfold single_blobs. rewrite filter_app. cbn [filter].
+    assert (G : forall n, filter (fun b : option (list N) => match b with Some _ => true | None => false end) (repeat None n) = [])
+      by (induction n; [reflexivity|exact IHn]).
+    rewrite !G. reflexivity.
+  Qed.
+
+  Lemma last_pop_single e : forall p s acc,
+    fold_left (fun acc (ib : nat * option (list N)) => match snd ib with Some b => Some (fst ib, b) | None => acc end)
+      (combine (seq s (length (single_blobs p e))) (single_blobs p e)) acc = Some ((s + p)%nat, e).
+  Proof.
+    assert (G : forall n s acc, fold_left (fun acc (ib : nat * option (list N)) => match snd ib with Some b => Some (fst ib, b) | None => acc end)
+               (combine (seq s n) (repeat (@None (list N)) n)) acc = acc).
+    { induction n; intros s acc; [reflexivity|]. cbn. apply IHn. }
+    intros p. unfold single_blobs. generalize (15 - p)%nat as m. intros m.
+    induction p as [|p IHp]; intros s acc.
+    - cbn [repeat app length seq combine fold_left fst snd]. rewrite repeat_length, G. f_equal. f_equal. lia.
+    - cbn [repeat app length seq combine fold_left fst snd]. rewrite (IHp (S s) acc). f_equal. f_equal. lia.
+  Qed.
+
+  (* ONE populated partition: the fold.  The returned root is the root hash of the
+     canonical trie holding the partition's content under nibble p; the write at
+     the empty path is that trie's root node; the copy of the subtree root the
+     partition stored at [p] is deleted iff it was a short node (then the
+     canonical trie has no node at [p]: its root short node spans that path). *)
+  Theorem assemble_single sc (p : nat) t e : (p < 16)%nat ->
+    can t -> pwf t -> node_enc H t = Some e -> (32 <= length e)%nat ->
+    exists e',
+      node_enc H (mount (N.of_nat p) t) = Some e' /\
+      hash_root H (mount (N.of_nat p) t) = Some (H e') /\
+      assemble_root H sc (single_blobs p e) =
+        GOk (H e', WNode (node_key sc zero_hash [] (H e')) e' ::
+                   (if is_short t then [WNodeDel (node_key sc zero_hash [N.of_nat p] (H e))] else [])).
+  Proof.
+    intros Hp Hc Hw Ee Hbig.
+    destruct (mount_enc (N.of_nat p) t e ltac:(lia) Hw Ee Hbig) as (e' & Ee' & Em).
+    exists e'. split; [exact Ee'|]. split.
+    - destruct (can_cases _ Hc) as [(k & v & -> & Hk)|[(k & cs & -> & Hk & Kne & Hcf)|(cs & ->)]];
+        cbn [mount] in *; unfold hash_root, node_ref; rewrite Ee', andb_false_r; reflexivity.
+    - unfold assemble_root. rewrite single_blobs_populated by exact Hp.
+      rewrite (last_pop_single e p 0 None). cbn [Nat.add]. rewrite Em. reflexivity.
+  Qed.
+
+  (* NO populated partition *)
+  Theorem assemble_empty sc :
+    assemble_root H sc (repeat None 16) = GOk (H [128], []) /\ hash_root H NEmpty = Some (H [128]).
+  Proof. split; reflexivity. Qed.
 End Asm.
